@@ -130,6 +130,25 @@ def arity_guard(es, s, repo):
         node = cfg.node_of(s.node)
     except AnalysisError:
         return None
+    # `base.insert(k, x)` / `base.append(x)` executed unconditionally before the access lengthen the list: a split()
+    # result has at least one element, every dominating insert at an index within the known length adds one
+    minlen = 1
+    grew = []
+    for c_ in ast.walk(fd):
+        if isinstance(c_, ast.Call) and isinstance(c_.func, ast.Attribute) and canon(c_.func.value) == base \
+                and c_.func.attr in ("insert", "append"):
+            try:
+                if cfg.dominates(cfg.node_of(c_), node) and cfg.node_of(c_) is not node:
+                    grew.append(c_)
+            except AnalysisError:
+                pass
+    for c_ in sorted(grew, key=lambda x: x.lineno):
+        if c_.func.attr == "append":
+            minlen += 1
+        elif c_.args and isinstance(c_.args[0], ast.Constant) and isinstance(c_.args[0].value, int) and 0 <= c_.args[0].value <= minlen:
+            minlen += 1
+    if isinstance(idx, int) and 0 <= idx < minlen:
+        return "list of at least %d elements (split() result lengthened by %d dominating insert/append)" % (minlen, minlen - 1)
     for (t, p) in guard_literals(cfg, node):
         if not p or ".verify_cmd(%s, " % base not in t:
             continue
